@@ -324,6 +324,18 @@ Proof.
   - destruct HB as [_ H2]. apply H2. exact Hst.
 Qed.
 
+Lemma sub_after_skip_kept : forall lg tb x unsent,
+  ctx_P lg tb x -> (forall p, In p (s_paths (x_sub x)) -> mem_path p (x_vis x) = true) ->
+  kept_P lg tb (sub_after_skip unsent x).
+Proof.
+  intros lg tb x unsent [HA [HC HB]] Hall p Hp Hst. right.
+  unfold sub_after_skip, with_core in *. cbn [s_paths s_del s_seen] in *.
+  specialize (HB p Hp (Hall p Hp)). unfold stale in Hst. rewrite lookup_app in Hst.
+  destruct (lookup p (x_pend x)) as [w|].
+  - apply HB. exact Hst.
+  - destruct HB as [_ H2]. apply H2. exact Hst.
+Qed.
+
 Lemma sub_after_fail_kept : forall lg tb x, ctx_P lg tb x -> kept_P lg tb (sub_after_fail x).
 Proof.
   intros lg tb x [HA _] p Hp Hst.
@@ -509,6 +521,18 @@ Proof.
       * apply sub_after_ok_kept; [exact V1|]. rewrite V2. exact V6.
       * unfold sub_after_ok, with_core. cbn [s_seen]. rewrite V3. exact Hxs2.
       * unfold sub_after_ok, with_core. cbn [s_seen_ev s_dev]. lia.
+    + (* nothing to send unless an attribute was emitted or the liveness report is due *)
+      destruct (visit_rest_facts (log st) (tab st) (nchg st) x (i_ctx st I x Hx) (i_log st I))
+        as [V1 [V2 [V3 V6]]].
+      destruct (report_is_sent (visit_rest (tab st) (nchg st) x)).
+      * apply (report_complete_inv st sid x _ I Hf).
+        -- apply sub_after_ok_kept; [exact V1|]. rewrite V2. exact V6.
+        -- unfold sub_after_ok, with_core. cbn [s_seen]. rewrite V3. exact Hxs2.
+        -- unfold sub_after_ok, with_core. cbn [s_seen_ev s_dev]. lia.
+      * apply (report_complete_inv st sid x _ I Hf).
+        -- apply sub_after_skip_kept; [exact V1|]. rewrite V2. exact V6.
+        -- unfold sub_after_skip, with_core. cbn [s_seen]. rewrite V3. exact Hxs2.
+        -- unfold sub_after_skip, with_core. cbn [s_seen_ev s_dev]. lia.
     + (* failed *)
       apply (report_complete_inv st sid x _ I Hf).
       * apply sub_after_fail_kept. apply (i_ctx st I). exact Hx.
@@ -610,13 +634,13 @@ Definition f7_witness : list op :=
   [OSubBegin 1 100 1 60 [f7_path] 0 0; OCtxRead 1 f7_path; OChange 1 2 3;
    OReportBegin 0 0; OPurge; OCtxEnd 1 EOk].
 
-Lemma unfixed_purge_refuted : inv_b (run_gen false true init f7_witness) = false.
+Lemma unfixed_purge_refuted : inv_b (run_gen false true true init f7_witness) = false.
 Proof. vm_compute. reflexivity. Qed.
 
 (** ... and that subscription is not reportable although its subscriber is out of date (until the
     liveness report, which will not carry the attribute either) *)
 Lemma unfixed_purge_refuted_not_reportable :
-  let st := run_gen false true init f7_witness in
+  let st := run_gen false true true init f7_witness in
   existsb (fun s => stale (log st) (s_del s) f7_path &&
                     negb (unprimed s) &&
                     negb (is_reportable s 20000 (tab st) (evn st)) &&
